@@ -153,7 +153,8 @@ def gen_doc(rng, *, kern_only=False, max_spines=4, splits=True, core=False, comm
         bbox_row()
     if rng.random() < 0.3 and not core:
         interp_row(TANDEM)
-    nmeasures = measures if measures is not None else rng.randint(1, 4)
+    # now and then a score without any measure (header, signatures, perhaps one barline, terminators)
+    nmeasures = measures if measures is not None else (0 if rng.random() < 0.05 else rng.randint(1, 4))
     opening = opening_barline if opening_barline is not None else rng.random() < 0.6
     final = final_barline if final_barline is not None else rng.random() < 0.6
     number = 1
